@@ -1,6 +1,6 @@
 """C06 - behaviour depends on the dataflow only: wiring order metamorphic relation + node sharing (interning) counts."""
 from __future__ import annotations
-import copy
+import copy, re
 from .runner import Result, Violation
 from .gen_core import gen_case
 from .prog import S, Stmt
@@ -20,7 +20,7 @@ ASSUMPTIONS = ["an instance is counted by its own start log (one u.start per con
                "vp/model.py for behaviour", "g++-12 -O1 build of the working tree with harness-side shims"]
 FLOORS = {"order_pairs_compared": {"quick": 400, "thorough": 6000}, "shared_duplicates": {"quick": 150, "thorough": 2500},
           "distinct_near_duplicates": {"quick": 150, "thorough": 2500}, "duplicated_sinks": {"quick": 100, "thorough": 1500},
-          "delayed_reroutes": {"quick": 100, "thorough": 1500}}
+          "delayed_reroutes": {"quick": 100, "thorough": 1500}, "packed_parameter_near_duplicates": {"quick": 100, "thorough": 1500}}
 BATCH = 24
 
 
@@ -61,6 +61,10 @@ def add_duplicates(rng, case):
                     next_uid += 2
                 elif kind == "input":
                     cands = [s.dst for s in out if s.dst and s.dst != st.dst and s.op not in ("fb", "delayed", "inline", "nested")]
+                    # parameters of the sub-graph too (for a packed call these are projections of ONE structured parameter)
+                    params = sorted({a.lstrip("~") for s in sts for a in s.args if re.fullmatch(r"~?p\d+", a)})
+                    if params and rng.random() < 0.5:
+                        cands = params
                     if cands and st.args:
                         k = rng.randrange(len(st.args))
                         new = rng.choice(cands)
@@ -78,6 +82,28 @@ def add_duplicates(rng, case):
                 expect[st.uid()] = ("sink2", gname)
         case.graphs[gname] = out
     return expect
+
+
+def add_packed_family(rng, case, expect):
+    """A nested (or, as control, inlined) call whose two arguments travel as ONE structured parameter; inside, the same
+    definition with equal scalars is applied to both projections - the two wirings differ in exactly one input."""
+    main = case.graphs["main"]
+    ports = [st.dst for st in main if st.dst and st.op not in ("fb", "delayed")]
+    if len(ports) < 2:
+        return 0
+    a, b = rng.sample(ports, 2)
+    sid = 1 + max([int(g[3:]) for g in case.graphs if g.startswith("sub")] + [-1])
+    u = 1 + max([s.uid() or 0 for g in case.graphs.values() for s in g] + [0])
+    op = rng.choice(["pass", "acc", "count", "delay"])
+    kw = {"k": rng.choice([1, 2, 3])} if op == "delay" else {}
+    body = [S("x", op, "p0", uid=u, **kw), S("y", op, "p1", uid=u, **kw), S("", "rec", "x", uid=u + 1), S("", "rec", "y", uid=u + 2),
+            S("z", "add2", "x", "y", uid=u + 3), S("", "RET", "z")]
+    case.graphs[f"sub{sid}"] = body
+    how = "nested" if rng.random() < 0.8 else "inline"
+    main.append(S("pk_", how, a, b, sid=sid, pack=1))
+    main.append(S("", "rec", "pk_", uid=u + 4))
+    expect[u] = ("distinct2", f"sub{sid}")
+    return 1
 
 
 def pick_alias(rng, alias, a):
@@ -139,6 +165,22 @@ def generate(rng, tier, seed):
     for k in range(n):
         base = gen_case(rng, f"c06_{seed}_{k}", n_nodes=rng.choice([4, 7, 12, 20]), max_depth=1)
         expect = add_duplicates(rng, base)
+        base.meta["packed"] = add_packed_family(rng, base, expect) if k % 3 == 0 else 0
+        # a near-duplicate that differs in one input NAME may still read the same port (pass-through sub-graphs, a call that
+        # passes one port twice): then the two wirings are exact duplicates and sharing is permitted
+        try:
+            flat0 = M.flatten(base)
+            for u, (kind, gname) in list(expect.items()):
+                if kind != "distinct2":
+                    continue
+                groups = {}
+                for i in flat0.insts:
+                    if i.uid == u:
+                        groups.setdefault(i.path, []).append((tuple((r.target.id, r.passive) for r in i.ins), tuple(sorted(i.kw.items()))))
+                if any(len(set(g)) < len(g) for g in groups.values()):
+                    expect[u] = ("shared", gname)
+        except M.FlattenError:
+            pass
         base.meta["expect"] = {str(u): list(v) for u, v in expect.items()}
         base.meta["group"] = base.name
         base.meta["dup_uids"] = [int(u) for u, v in expect.items() if v[0] in ("shared", "sink2")]
@@ -151,6 +193,7 @@ def generate(rng, tier, seed):
             c.meta["dup_uids"] = base.meta["dup_uids"]
             c.meta["skip_uids"] = base.meta["skip_uids"]
             c.meta["expect"] = base.meta["expect"]
+            c.meta["packed"] = base.meta["packed"]
             c.meta["order"] = j
             cases.append(c)
     return cases
@@ -224,6 +267,7 @@ def check(case, tr):
             res.violations.append(Violation(f"wiring orders {case.meta['order']} and {other_order} of the same dataflow differ on uids {sorted(bad)[:6]}"))
     grp.append((case.meta["order"], nodes, streams, known_dev, starts, res.signature))
     res.counters = {"order_pairs_compared": pairs, "shared_duplicates": shared, "distinct_near_duplicates": distinct,
-                    "duplicated_sinks": sinks, "delayed_reroutes": case.meta.get("reroutes", 0), "runs_compared": len(mr.runs)}
+                    "duplicated_sinks": sinks, "delayed_reroutes": case.meta.get("reroutes", 0), "runs_compared": len(mr.runs),
+                    "packed_parameter_near_duplicates": case.meta.get("packed", 0)}
     res.nontrivial = (shared + distinct + sinks) >= 1 and pairs >= 1
     return res
